@@ -92,7 +92,7 @@ FIXED_SOURCES = [
 ]
 
 
-def fixed_cases():
+def fixed_cases(big=False):
     out = []
     for s in FIXED_SOURCES:
         mv = 8 if "/" in s and "def f(a, /" in s else 7
@@ -113,5 +113,9 @@ def fixed_cases():
             for norm in (False, True):
                 out.append({"alter": {"kind": kind, "value": val}, "min_version": 7, "normalize": norm, "_label": "altered_code"})
     for c in gen_source.example_cases():
+        if c.get("_label") == "repo_minimized" and not big:
+            continue  # large files: schema validation of their documents dominates the quick tier
+        if c.get("optimize"):
+            continue
         out.append(dict(c, normalize=False))
     return out
